@@ -40,6 +40,7 @@ RULE = ("random table Hamiltonians (1-4 variables, 1-5 bonds on 1-4 variables (3
         "traj: one real sweep (Metropolis / heat-bath with the real or an inflated table) under a recorded RNG, replayed by the model; "
         "prob: threshold bisection of the bond/attempt/acceptance/removal words of a random empty slot k inside a sweep, "
         "compared with the model's rationals and (oracle, real code only) p_insert/p_remove against beta*w/(L-n) with the n current at slot k. "
+        "generic: Qmc with set_do_heatbath(true) that has already swept (lazy table built) gets a further interaction (3/4 of them with an all-equal diagonal: constant term, equal-diagonal full matrix, constant diagonal constructor), then diagonal_update trajectories replayed with the table of the CURRENT interactions (gsweep) and the insert/remove probabilities of the NEW bond bisected (gprob); "
         "Non-trivial = the sweep visits at least one slot that is empty or holds an op; distinct = distinct input line.")
 
 
@@ -56,5 +57,5 @@ def main(ck):
         # generic sampler, heat-bath, interaction added after the lazily built table exists: sweeps replayed with the table of
         # the CURRENT interactions, insert probability of the NEW bond bisected
         ck.correspond("generic-sampler-heatbath", "drv_c08", ck.harness("c08", ["generic"]))
-    law_audits.run(ck, groups=['refine', 'ideal', 'sweep'])   # idealised law of the executable model = the Markov kernel of the invariance theorems
+    law_audits.run(ck, groups=['refine', 'ideal', 'sweep', 'heatbath', 'good'])   # idealised law of the executable model = the Markov kernel of the invariance theorems
     return ck.finish(RULE)
